@@ -115,6 +115,19 @@ func mix(prop string, parts []*world.Def) *world.Def {
 		}
 		return o
 	}
+	n.Enumerate = func(tier string) []interface{} {
+		var out []interface{}
+		for _, p := range parts {
+			if p.Enumerate == nil {
+				continue
+			}
+			for _, s := range p.Enumerate(tier) {
+				raw, _ := json.Marshal(s)
+				out = append(out, &Dual{World: p.Prop + "@" + p.World, Script: raw, inner: s})
+			}
+		}
+		return out
+	}
 	seen := map[string]bool{}
 	for _, p := range parts {
 		for _, r := range p.Real {
@@ -142,7 +155,7 @@ func init() {
 		parts = append(parts, world.Lookup(p))
 	}
 	c18 := mix("C18", parts)
-	c18.Rule = "workloads = the seeded scripts of the other worlds in rotation (broker: routing with in-process Publish/Subscribe, retained updates racing with subscriptions, teardown under delivery and Server.Close, fan-in, wills, session churn, attackers; ring; ack queue; topic store), executed by a worker built with -race in which only the library (and the byte-copy helper of the simulated transport) is instrumented: baton hand-offs of the simulator create no happens-before edge, the shims perform the real sync/atomic operation next to the simulated one, so ThreadSanitizer sees exactly the library's own synchronisation under a seeded, replayable schedule. A violation is a race report whose two accesses are both in code of github.com/mdzio/go-mqtt. Non-trivial = the workload's own criterion; distinct = schedule hash."
+	c18.Rule = "workloads = the seeded scripts of the other worlds in rotation (broker: routing with in-process Publish/Subscribe, retained updates racing with subscriptions, teardown under delivery and Server.Close, fan-in, wills, session churn, attackers; ring; ack queue; topic store), plus the complete enumerations of those worlds (teardown grid, truncation points and short remaining lengths of every packet type), executed by a worker built with -race in which only the library (and the byte-copy helper of the simulated transport) is instrumented: baton hand-offs of the simulator create no happens-before edge, the shims perform the real sync/atomic operation next to the simulated one, so ThreadSanitizer sees exactly the library's own synchronisation under a seeded, replayable schedule. A violation is a race report whose two accesses are both in code of github.com/mdzio/go-mqtt. Non-trivial = the workload's own criterion; distinct = schedule hash."
 	c18.QuickRuns, c18.ThoroughRuns = 6000, 200000
 	c18.Assumptions = []string{
 		"ThreadSanitizer reports a race only if both accesses occur in the run and are unordered by the library's own synchronisation (they need not be adjacent in time)",
